@@ -34,6 +34,9 @@ typedef std::vector<Seg> Script;
 
 inline Seg send(const Bytes& b) { return Seg{false, b, 0}; }
 inline Seg await(int n) { return Seg{true, Bytes(), n}; }
+// scripted silence inside a script: one receive timeout plus extraMs (the script goes on afterwards, without a SYN)
+inline Seg pause(int extraMs) { return Seg{false, Bytes(), extraMs + 1}; }
+inline bool isPause(const Seg& s) { return !s.await && s.bytes.empty() && s.n > 0; }
 
 struct ReqSpec {
   Bytes master;        // QQ ZZ PB SB NN D..
@@ -190,6 +193,7 @@ class World {
   // requests
   std::vector<MasterSymbolString> masters;
   std::vector<BusRequest*> reqObj; // nullptr once destroyed / not created (TReq, or TPoll for kind 2)
+  bool timeExact = false;          // the exact time since the last received symbol is part of the state (scenarios with scripted pauses)
   void* pollCtx = nullptr;         // kind 2: message map with the chained poll message (BUSMC_WITH_POLL)
   std::vector<int> reqState;       // 0 not submitted, 1 submitted (in flight), 2 completed
   std::vector<int> resubmitsLeft;
@@ -233,7 +237,7 @@ class World {
   uint64_t stateHash();
 
  private:
-  enum DK { D_ECHO, D_BYTE, D_SILENCE, D_END };
+  enum DK { D_ECHO, D_BYTE, D_SILENCE, D_END, D_PAUSE };
   struct Def { DK k; uint8_t v; };
   Def nextDefault(bool peekOnly);
   void advanceScript();
